@@ -1114,7 +1114,6 @@ static void scenario_conc(void)
     make_new_pool(2, C->icase == J_BULK ? POL_LIFO : POL_FIFO);
     SERVED = UP[0].handle;
     SERVED2 = UP[1].handle;
-    POOLS[PA] = SERVED; /* for the stacked scheduler */
     ABT_pool sp[2] = { SERVED, SERVED2 };
     ABT_sched sched;
     ABT_xstream es1;
